@@ -155,6 +155,7 @@ def run_property(pid, tier, root=None, write_evidence=True):
                 "trusted_base": ["rustc 1.97-nightly MIR/type information (mir-opt-level=0)", "/verif/driver exporter",
                                  "/verif/rules engine + the instance tables in rules/props/%s.py" % pid],
                 "samples": samples[:60],
+                "instances": [{"rule": r["rule"], "key": r["key"], "ok": r["ok"]} for r in rep.results],
                 "exhaustive": False,
                 "configurations": rep.analysed,
                 "rules": rep.rules_applied,
